@@ -27,7 +27,7 @@ def parse_with_warnings(p, **kw):
     cats: dict = {}
     for w in wlog:
         cats[w.category.__name__] = cats.get(w.category.__name__, 0) + 1
-    return sorted(cats.items())
+    return [list(x) for x in sorted(cats.items())]
 
 
 def construct(delivery: dict):
